@@ -355,6 +355,9 @@ func dagRec(n int) *zoo.RecDag {
 // in at - sharing right after an interface value that is encoded as null.
 func dagRecI(n int, at ...int) *zoo.RecDagI {
 	leaf := &zoo.RecDagI{ID: -1, V: (*int)(nil), W: (*zoo.RecDagI)(nil)}
+	// a second shared leaf whose interface members hold values: its interface slots are entered
+	// (and must be left again) each time it is reached
+	leaf2 := &zoo.RecDagI{ID: -2, V: []interface{}{1, "x"}, W: map[string]interface{}{"k": 2}}
 	root := &zoo.RecDagI{ID: 0, V: 0}
 	cur := root
 	for i := 1; i < n; i++ {
@@ -365,6 +368,9 @@ func dagRecI(n int, at ...int) *zoo.RecDagI {
 		for _, a := range at {
 			if i == a || i == a+1 {
 				nx.Side = leaf
+			}
+			if i == a+2 || i == a+3 {
+				nx.Side = leaf2
 			}
 		}
 		cur.Next = nx
